@@ -1,2 +1,1301 @@
 //! C04 — inbound payments are claimable only if complete and authentic; all-or-nothing.
-fn main() {}
+//!
+//! Receiver R (node 0) with 1-3 channels from 1-2 senders. The senders are the adversary but act through
+//! LDK's own send API with generated onion fields. R's decisions (fail back / hold / PaymentClaimable /
+//! fulfil) are compared in lock-step with `ext_c04::RecvModel`, a reference written from the documented
+//! receive rules; on top of that the wire history is checked for the all-or-nothing and crediting clauses.
+use lightning::events::{Event, PaymentPurpose};
+use lightning::types::payment::{PaymentHash, PaymentPreimage, PaymentSecret};
+use netsim::ext_c04::*;
+use netsim::oracle_commit::*;
+use netsim::rec::install_recording_signer;
+use netsim::sim::*;
+use proptest::prelude::*;
+use serde::{Deserialize, Serialize};
+use serde_json::json;
+use std::collections::{BTreeMap, BTreeSet};
+use vcore::*;
+
+/// amount assumed for registrations without a minimum when the generator needs a reference value
+const DEFAULT_AMT: u64 = 1_000_000;
+/// custom TLV types the generator draws from (even = must-understand, odd = optional)
+const TLV_TYPES: [u64; 5] = [65536, 65537, 65538, 65539, 70001];
+
+// -------------------------------------------------------------------------------------------------
+// case
+// -------------------------------------------------------------------------------------------------
+
+#[derive(Clone, Debug, Serialize, Deserialize)]
+enum SecretSpec {
+	/// the secret R issued for registration j (j == own registration: valid)
+	Of(u16),
+	/// that secret with one bit flipped
+	Flip { reg: u16, bit: u8 },
+	Random(u8),
+	None,
+}
+
+#[derive(Clone, Debug, Serialize, Deserialize)]
+enum MetaSpec {
+	/// the (encrypted) metadata R handed out for registration j
+	Of(u16),
+	Tamper { reg: u16, pos: u8, xor: u8 },
+	/// the plaintext the user registered (not what the invoice carries)
+	Plain(u16),
+	None,
+	Raw(Vec<u8>),
+}
+
+#[derive(Clone, Debug, Serialize, Deserialize)]
+enum TotalSpec {
+	/// exactly the registered minimum
+	Min,
+	Plus(i64),
+	Times(u8),
+	Abs(u64),
+	Zero,
+}
+
+#[derive(Clone, Debug, Serialize, Deserialize)]
+enum AmtSpec {
+	/// n eighths of the announced total
+	Share(u8),
+	/// what is missing to the announced total, plus delta
+	Rest(i32),
+	Abs(u64),
+}
+
+#[derive(Clone, Debug, Serialize, Deserialize)]
+enum CltvSpec {
+	/// final delta 40 + k: R accepts iff expiry > height + HTLC_FAIL_BACK_BUFFER + 1, i.e. k >= 0
+	Boundary(i8),
+	/// registered min_final_cltv_expiry_delta - 1 + k: accepted iff k >= 0 (and the rule above holds)
+	MinFinal(i8),
+	Normal,
+	Far(u8),
+}
+
+#[derive(Clone, Debug, Serialize, Deserialize)]
+struct SendSpec {
+	chan: u16,
+	reg: u16,
+	amt: AmtSpec,
+	secret: SecretSpec,
+	total: TotalSpec,
+	meta: MetaSpec,
+	tlvs: Vec<(u8, Vec<u8>)>,
+	cltv: CltvSpec,
+	/// pay a keysend hash like an invoice (no preimage in the onion)
+	as_invoice: bool,
+}
+
+#[derive(Clone, Debug, Serialize, Deserialize)]
+enum Step {
+	Send(SendSpec),
+	/// R processes what arrived since the last non-Send step
+	Forwards,
+	Tick,
+	Mine { n: u8 },
+	/// one block whose header time is the expiry of registration `reg` (margin included) plus k seconds
+	MineTime { reg: u16, k: i8 },
+	/// mine up to the advertised claim_deadline of the payment for `reg` plus k
+	MineToDeadline { reg: u16, k: i8 },
+	Claim { reg: u16, known_tlvs: bool },
+	FailBack { reg: u16 },
+	/// R force-closes a channel
+	ForceClose { chan: u16 },
+}
+
+#[derive(Clone, Debug, Serialize, Deserialize)]
+struct Case {
+	world: WSpec,
+	regs: Vec<RegSpec>,
+	steps: Vec<Step>,
+	/// 0: nothing, 1: claim everything claimable at the end, 2: fail everything back
+	finale: u8,
+}
+
+// -------------------------------------------------------------------------------------------------
+// strategies
+// -------------------------------------------------------------------------------------------------
+
+fn world_strat(max_chans: usize) -> impl Strategy<Value = WSpec> {
+	(proptest::collection::vec((0u8..2, prop_oneof![Just(1_000_000u64), 1_000_000u64..4_000_000]), 1..=max_chans), any::<bool>()).prop_map(|(mut chans, anchors)| {
+		// sender indices are dense: a second sender exists only if somebody uses index 1
+		if chans.iter().all(|(s, _)| *s == 1) {
+			for c in chans.iter_mut() {
+				c.0 = 0;
+			}
+		}
+		WSpec { chans, anchors }
+	})
+}
+
+fn amount_strat() -> impl Strategy<Value = u64> {
+	prop_oneof![
+		3 => Just(DEFAULT_AMT),
+		2 => 1_000u64..400_000,            // dust on every commitment
+		2 => 300_000u64..700_000,          // around the dust thresholds (354 sat, 354 + HTLC tx fee)
+		3 => 1_000_000u64..100_000_000,
+	]
+}
+
+fn reg_strat() -> impl Strategy<Value = RegSpec> {
+	(
+		prop_oneof![4 => Just(RegKind::Ldk), 4 => Just(RegKind::ForHash), 1 => Just(RegKind::Keysend)],
+		prop_oneof![1 => Just(None), 4 => amount_strat().prop_map(Some)],
+		prop_oneof![Just(0u32), Just(1u32), Just(3600u32), 0u32..100_000],
+		prop_oneof![3 => Just(None), 2 => prop_oneof![Just(18u16), Just(41), Just(42), Just(45), 18u16..90].prop_map(Some)],
+		prop_oneof![3 => Just(None), 1 => proptest::collection::vec(any::<u8>(), 0..40).prop_map(Some)],
+		proptest::bool::weighted(0.3),
+	)
+		.prop_map(|(kind, amt, expiry_secs, min_cltv, meta, reuse_prev_hash)| RegSpec { kind, amt, expiry_secs, min_cltv, meta, reuse_prev_hash })
+}
+
+fn bit_strat() -> impl Strategy<Value = u8> {
+	// uniform, plus the edges of the IV / encrypted-info halves and the last byte
+	prop_oneof![4 => any::<u8>(), 1 => 120u8..136, 1 => 248u8..=255, 1 => 0u8..8]
+}
+
+fn send_strat() -> impl Strategy<Value = SendSpec> {
+	(
+		(any::<u16>(), any::<u16>()),
+		prop_oneof![3 => (1u8..=8).prop_map(AmtSpec::Share), 5 => prop_oneof![4 => Just(0i32), 1 => Just(-1), 1 => Just(1), 1 => -2000i32..2000].prop_map(AmtSpec::Rest), 1 => amount_strat().prop_map(AmtSpec::Abs)],
+		prop_oneof![
+			14 => Just(SecretSpec::Of(u16::MAX)),       // placeholder, replaced by own registration below
+			2 => any::<u16>().prop_map(SecretSpec::Of),
+			3 => (any::<u16>(), bit_strat()).prop_map(|(reg, bit)| SecretSpec::Flip { reg, bit }),
+			1 => any::<u8>().prop_map(SecretSpec::Random),
+			1 => Just(SecretSpec::None),
+		],
+		prop_oneof![
+			12 => Just(TotalSpec::Min),
+			3 => prop_oneof![Just(-1i64), Just(1), Just(1000), -5000i64..5000].prop_map(TotalSpec::Plus),
+			1 => (2u8..4).prop_map(TotalSpec::Times),
+			1 => amount_strat().prop_map(TotalSpec::Abs),
+		],
+		prop_oneof![
+			14 => Just(MetaSpec::Of(u16::MAX)),
+			1 => any::<u16>().prop_map(MetaSpec::Of),
+			2 => (any::<u8>(), 1u8..=255).prop_map(|(pos, xor)| MetaSpec::Tamper { reg: u16::MAX, pos, xor }),
+			1 => Just(MetaSpec::Plain(u16::MAX)),
+			1 => Just(MetaSpec::None),
+			1 => proptest::collection::vec(any::<u8>(), 0..20).prop_map(MetaSpec::Raw),
+		],
+		prop_oneof![6 => Just(vec![]), 3 => proptest::collection::vec((0u8..5, proptest::collection::vec(any::<u8>(), 0..3)), 1..3)],
+		prop_oneof![
+			10 => Just(CltvSpec::Normal),
+			2 => (-3i8..=3).prop_map(CltvSpec::Boundary),
+			2 => (-2i8..=3).prop_map(CltvSpec::MinFinal),
+			3 => (0u8..60).prop_map(CltvSpec::Far),
+		],
+		proptest::bool::weighted(0.1),
+	)
+		.prop_map(|((chan, reg), amt, secret, total, meta, tlvs, cltv, as_invoice)| {
+			let own = |r: u16| if r == u16::MAX { reg } else { r };
+			let secret = match secret {
+				SecretSpec::Of(r) => SecretSpec::Of(own(r)),
+				o => o,
+			};
+			let meta = match meta {
+				MetaSpec::Of(r) => MetaSpec::Of(own(r)),
+				MetaSpec::Tamper { reg: r, pos, xor } => MetaSpec::Tamper { reg: own(r), pos, xor },
+				MetaSpec::Plain(r) => MetaSpec::Plain(own(r)),
+				o => o,
+			};
+			SendSpec { chan, reg, amt, secret, total, meta, tlvs, cltv, as_invoice }
+		})
+}
+
+fn step_strat() -> impl Strategy<Value = Step> {
+	prop_oneof![
+		44 => send_strat().prop_map(Step::Send),
+		18 => Just(Step::Forwards),
+		5 => Just(Step::Tick),
+		4 => prop_oneof![Just(1u8), 1u8..6, 1u8..40].prop_map(|n| Step::Mine { n }),
+		2 => (any::<u16>(), prop_oneof![Just(-1i8), Just(0), Just(1), Just(100)]).prop_map(|(reg, k)| Step::MineTime { reg, k }),
+		8 => (any::<u16>(), -3i8..=2).prop_map(|(reg, k)| Step::MineToDeadline { reg, k }),
+		12 => (any::<u16>(), proptest::bool::weighted(0.3)).prop_map(|(reg, known_tlvs)| Step::Claim { reg, known_tlvs }),
+		3 => any::<u16>().prop_map(|reg| Step::FailBack { reg }),
+		2 => any::<u16>().prop_map(|chan| Step::ForceClose { chan }),
+	]
+}
+
+fn case_strat(max_steps: usize) -> impl Strategy<Value = Case> {
+	(world_strat(3), proptest::collection::vec(reg_strat(), 1..=3), proptest::collection::vec(step_strat(), 3..max_steps), prop_oneof![2 => Just(1u8), 1 => Just(0u8), 1 => Just(2u8)])
+		.prop_map(|(world, regs, steps, finale)| Case { world, regs, steps, finale })
+}
+
+/// profile "secret-sweep": one channel, many single-part payments with tampered secrets / metadata, each
+/// processed on its own, then an untampered payment that is claimed.
+fn sweep_strat(max_probes: usize) -> impl Strategy<Value = Case> {
+	let probe = (
+		prop_oneof![
+			8 => bit_strat().prop_map(|bit| SecretSpec::Flip { reg: 0, bit }),
+			1 => Just(SecretSpec::Of(1)),
+			1 => any::<u8>().prop_map(SecretSpec::Random),
+			2 => Just(SecretSpec::Of(0)),
+		],
+		prop_oneof![6 => Just(MetaSpec::Of(0)), 2 => (any::<u8>(), 1u8..=255).prop_map(|(pos, xor)| MetaSpec::Tamper { reg: 0, pos, xor }), 1 => Just(MetaSpec::None)],
+		prop_oneof![5 => Just(TotalSpec::Min), 1 => Just(TotalSpec::Plus(-1)), 1 => Just(TotalSpec::Plus(1))],
+	);
+	(any::<bool>(), proptest::collection::vec(reg_strat(), 2), proptest::collection::vec(probe, 4..max_probes)).prop_map(|(anchors, mut regs, probes)| {
+		for r in regs.iter_mut() {
+			if r.kind == RegKind::Keysend {
+				r.kind = RegKind::ForHash;
+			}
+			r.min_cltv = None;
+		}
+		let mut steps = vec![];
+		for (secret, meta, total) in probes {
+			steps.push(Step::Send(SendSpec { chan: 0, reg: 0, amt: AmtSpec::Share(8), secret, total, meta, tlvs: vec![], cltv: CltvSpec::Normal, as_invoice: false }));
+			steps.push(Step::Forwards);
+			// an untampered secret with total + 1 leaves an incomplete set behind: let it time out
+			steps.push(Step::Tick);
+			steps.push(Step::Tick);
+			steps.push(Step::Tick);
+			// whatever became claimable is handed back so that the next probe starts from an empty set
+			steps.push(Step::FailBack { reg: 0 });
+		}
+		steps.push(Step::Send(SendSpec { chan: 0, reg: 0, amt: AmtSpec::Share(8), secret: SecretSpec::Of(0), total: TotalSpec::Min, meta: MetaSpec::Of(0), tlvs: vec![], cltv: CltvSpec::Normal, as_invoice: false }));
+		steps.push(Step::Forwards);
+		Case { world: WSpec { chans: vec![(0, 1_000_000)], anchors }, regs, steps, finale: 1 }
+	})
+}
+
+// -------------------------------------------------------------------------------------------------
+// runner
+// -------------------------------------------------------------------------------------------------
+
+fn fail(oracle: &str, detail: String) -> Failure {
+	Failure::new(oracle, detail)
+}
+
+/// what the user has been told is claimable for a hash and has not acted on yet
+#[derive(Clone, Debug)]
+struct UserView {
+	shown: Shown,
+	preimage: [u8; 32],
+	emitted_at_height: u32,
+}
+
+#[derive(Default)]
+struct Stats {
+	parts: usize,
+	decided: usize,
+	claimable_events: usize,
+	claimed_events: usize,
+	multi_part_claimable: usize,
+	tampered_parts: usize,
+	boundary_parts: usize,
+	claims_before_deadline: usize,
+	claims_at_or_after_deadline: usize,
+	claim_near_deadline: usize,
+	fail_reasons: BTreeSet<&'static str>,
+	order_ambiguous_batches: usize,
+	valid_part_rejected: usize,
+	orphaned: usize,
+	closed_chan_claims: usize,
+}
+
+struct Run {
+	sim: Sim,
+	model: RecvModel,
+	co: CommitOracle,
+	now: u64,
+	cursor: usize,
+	batch: Vec<usize>,
+	wire: BTreeMap<(usize, u64), usize>,
+	failed: BTreeSet<usize>,
+	fulfilled: BTreeSet<usize>,
+	user: BTreeMap<[u8; 32], UserView>,
+	closed: BTreeSet<usize>,
+	/// part ids that were pending on a channel when R closed it, with R's own dust verdict
+	dust_at_close: BTreeMap<usize, bool>,
+	sent_sum: BTreeMap<[u8; 32], u64>,
+	base_capacity: Vec<u64>,
+	/// (set of parts shown together, by payment) for the all-or-nothing check
+	shown_sets: Vec<Vec<usize>>,
+	claimed_sets: Vec<Vec<usize>>,
+	stats: Stats,
+	trace: Vec<String>,
+	replay: bool,
+	foreign: Option<String>,
+	/// the case left the scope of the property (e.g. a sender timed an HTLC out on chain): stop, label
+	aborted: Option<&'static str>,
+}
+
+struct Expect {
+	must_fail: Vec<usize>,
+	may_fail: Vec<([u8; 32], Vec<usize>, bool)>,
+	fulfill: Vec<usize>,
+	claimed: Option<Shown>,
+	what: String,
+}
+
+impl Expect {
+	fn none(what: &str) -> Expect {
+		Expect { must_fail: vec![], may_fail: vec![], fulfill: vec![], claimed: None, what: what.to_string() }
+	}
+}
+
+impl Run {
+	fn height(&self) -> u32 {
+		self.sim.w.nodes[R].node.current_best_block().height
+	}
+
+	fn wireable(&self, pid: usize) -> bool {
+		!self.closed.contains(&self.model.parts[pid].chan)
+	}
+
+	fn note(&mut self, s: String) {
+		if self.replay {
+			// printed right away as well: a panic inside the library unwinds past the summary below
+			println!("C04-STEP {}", s);
+			self.trace.push(s);
+		}
+	}
+
+	fn tripwire(&mut self) {
+		if self.foreign.is_none() {
+			if let Err(f) = self.co.step(&self.sim) {
+				self.foreign = Some(f.oracle.clone());
+			}
+		}
+	}
+
+	/// collect R's update_fail / update_fulfill messages emitted since the last call
+	fn observe_wire(&mut self) -> Result<(BTreeSet<usize>, BTreeSet<usize>), Failure> {
+		let mut nf = BTreeSet::new();
+		let mut nfu = BTreeSet::new();
+		for (_, e) in self.sim.log[self.cursor..].iter() {
+			if let SEvent::Emit { from: R, wire, .. } = e {
+				let (cid, hid, fulfil) = match wire {
+					Wire::Fail(m) => (m.channel_id, m.htlc_id, None),
+					Wire::FailMalformed(m) => (m.channel_id, m.htlc_id, None),
+					Wire::Fulfill(m) => (m.channel_id, m.htlc_id, Some(m.payment_preimage)),
+					_ => continue,
+				};
+				let Some(chan) = self.sim.chans.iter().position(|c| c.id == cid) else { continue };
+				let Some(pid) = self.wire.get(&(chan, hid)).cloned() else { continue };
+				match fulfil {
+					None => {
+						if self.failed.insert(pid) {
+							nf.insert(pid);
+						}
+					},
+					Some(pre) => {
+						if sha(&pre.0) != self.model.parts[pid].hash {
+							return Err(fail("fulfill-preimage", format!("R fulfilled part#{} with a preimage that does not hash to the payment hash", pid)));
+						}
+						if self.fulfilled.insert(pid) {
+							nfu.insert(pid);
+						}
+					},
+				}
+			}
+		}
+		self.cursor = self.sim.log.len();
+		Ok((nf, nfu))
+	}
+
+	fn check_claimable_event(&self, ev: &Event, sh: &Shown, height: u32) -> Result<[u8; 32], Failure> {
+		let Event::PaymentClaimable { payment_hash, amount_msat, claim_deadline, purpose, onion_fields, receiving_channel_ids, counterparty_skimmed_fee_msat, .. } = ev else { unreachable!() };
+		let ctx = format!("PaymentClaimable for hash {} (parts {:?})", hex(&payment_hash.0[..4]), sh.parts);
+		// (a) amount_msat = sum of the parts
+		vensure!(*amount_msat == sh.amount, "claimable-amount", "{}: amount_msat {} but the parts sum to {}", ctx, amount_msat, sh.amount);
+		vensure!(*counterparty_skimmed_fee_msat == 0, "claimable-amount", "{}: skimmed fee {} on direct payments", ctx, counterparty_skimmed_fee_msat);
+		// (a) claim_deadline = min part expiry - HTLC_FAIL_BACK_BUFFER, and the window is open at emission
+		vensure!(*claim_deadline == Some(sh.deadline), "claim-deadline", "{}: claim_deadline {:?}, expected min expiry - {} = {}", ctx, claim_deadline, HTLC_FAIL_BACK_BUFFER, sh.deadline);
+		vensure!(sh.deadline > height, "claim-deadline", "{}: deadline {} not after the height {} at emission", ctx, sh.deadline, height);
+		let mut got: Vec<usize> = receiving_channel_ids.iter().filter_map(|(id, _)| self.sim.chans.iter().position(|c| c.id == *id)).collect();
+		got.sort();
+		let mut want: Vec<usize> = sh.parts.iter().map(|p| self.model.parts[*p].chan).collect();
+		want.sort();
+		vensure!(got == want, "claimable-channels", "{}: receiving channels {:?}, parts arrived over {:?}", ctx, got, want);
+		// (a) the fields shown are those every part agreed on
+		let Some(of) = onion_fields else { return Err(fail("claimable-fields", format!("{}: no onion_fields", ctx))) };
+		vensure!(of.payment_secret.map(|s| s.0) == sh.secret, "claimable-fields", "{}: payment_secret differs from the parts'", ctx);
+		vensure!(of.total_mpp_amount_msat == sh.total, "claimable-fields", "{}: total_mpp_amount_msat {} but parts announced {}", ctx, of.total_mpp_amount_msat, sh.total);
+		vensure!(of.payment_metadata == sh.meta_plain, "claimable-fields", "{}: payment_metadata {:?}, registered plaintext {:?}", ctx, of.payment_metadata, sh.meta_plain);
+		let tl = of.custom_tlvs();
+		for p in sh.parts.iter() {
+			let pt = &self.model.parts[*p].tlvs;
+			vensure!(tl.iter().all(|t| pt.contains(t)), "claimable-fields", "{}: custom TLVs {:?} not all present in part#{} {:?}", ctx, tl, p, pt);
+			let ev_even: Vec<_> = tl.iter().filter(|(k, _)| k % 2 == 0).collect();
+			let p_even: Vec<_> = pt.iter().filter(|(k, _)| k % 2 == 0).collect();
+			vensure!(ev_even == p_even, "claimable-fields", "{}: even custom TLVs differ from part#{}", ctx, p);
+		}
+		// (a) hash + secret were issued by R for that hash, or valid keysend
+		match purpose {
+			PaymentPurpose::Bolt11InvoicePayment { payment_preimage, payment_secret } => {
+				vensure!(!sh.keysend, "claimable-purpose", "{}: invoice purpose for a spontaneous payment", ctx);
+				let reg = self.model.regs.iter().find(|r| r.secret == Some(payment_secret.0) && r.hash == payment_hash.0);
+				let Some(reg) = reg else { return Err(fail("claimable-secret-not-issued", format!("{}: secret {} was never issued by R for this hash", ctx, hex(&payment_secret.0)))) };
+				if let Some(min) = reg.min_amt {
+					vensure!(sh.amount >= min && sh.total >= min, "claimable-underpaid", "{}: amount {} / total {} below the registered minimum {}", ctx, sh.amount, sh.total, min);
+				}
+				match (reg.kind, payment_preimage) {
+					(RegKind::Ldk, Some(p)) => {
+						vensure!(sha(&p.0) == payment_hash.0, "claimable-purpose", "{}: preimage in the event does not match the hash", ctx);
+						Ok(p.0)
+					},
+					(RegKind::Ldk, None) => Err(fail("claimable-purpose", format!("{}: no preimage for a create_inbound_payment registration", ctx))),
+					(_, Some(_)) => Err(fail("claimable-purpose", format!("{}: LDK claims to know the preimage of a user-supplied hash", ctx))),
+					(_, None) => Ok(reg.preimage),
+				}
+			},
+			PaymentPurpose::SpontaneousPayment(p) => {
+				vensure!(sh.keysend, "claimable-purpose", "{}: spontaneous purpose for an invoice payment", ctx);
+				vensure!(sha(&p.0) == payment_hash.0, "claimable-purpose", "{}: keysend preimage does not match the hash", ctx);
+				Ok(p.0)
+			},
+			other => Err(fail("claimable-purpose", format!("{}: unexpected purpose {:?}", ctx, other))),
+		}
+	}
+
+	/// Flush, then compare everything R did with what the model allows.
+	fn settle(&mut self, mut exp: Expect) -> CaseResult {
+		let height = self.height();
+		let now = self.now;
+		let r_events = self.sim.c04_flush();
+		self.tripwire();
+		for ci in 0..self.sim.chans.len() {
+			if !self.closed.contains(&ci) && self.sim.chan_details(R, ci).is_none() {
+				// not closed by a ForceClose step: the peer gave up on an HTLC (or a C01-level error); what R did
+				// with HTLCs of that channel in this round is no longer observable on the wire
+				self.aborted = Some("unplanned-channel-closure");
+				return Ok(());
+			}
+		}
+		let (new_failed, new_fulfilled) = self.observe_wire()?;
+		let claimables: Vec<&Event> = r_events.iter().filter(|e| matches!(e, Event::PaymentClaimable { .. })).collect();
+		let claimeds: Vec<&Event> = r_events.iter().filter(|e| matches!(e, Event::PaymentClaimed { .. })).collect();
+
+		// MPP timeout: may / must
+		let may = std::mem::take(&mut exp.may_fail);
+		for (h, ids, must) in may {
+			let w: Vec<usize> = ids.iter().cloned().filter(|p| self.wireable(*p)).collect();
+			let hit = w.iter().filter(|p| new_failed.contains(p)).count();
+			if hit == w.len() {
+				// (all observable parts failed; test builds time out on the first tick)
+				self.model.drop_set(&h);
+				exp.must_fail.extend(ids.iter().cloned());
+				self.stats.fail_reasons.insert("mpp-timeout");
+			} else if hit == 0 && !must {
+				// production timeout not reached yet: still waiting is allowed
+			} else if hit == 0 {
+				return Err(fail("mpp-timeout-not-failed", format!("incomplete set {} (parts {:?}) still held after {} timer ticks", hex(&h[..4]), ids, MPP_TIMEOUT_TICKS_MAX)));
+			} else {
+				return Err(fail("all-or-nothing-timeout", format!("MPP timeout failed only {} of the parts {:?} of set {}", hit, w, hex(&h[..4]))));
+			}
+		}
+
+		// the batch of newly arrived parts, processed channel by channel in an order LDK does not fix
+		let batch: Vec<usize> = std::mem::take(&mut self.batch).into_iter().filter(|p| self.wireable(*p)).collect();
+		let mut groups: BTreeMap<usize, Vec<usize>> = BTreeMap::new();
+		for p in batch.iter() {
+			groups.entry(self.model.parts[*p].chan).or_default().push(*p);
+		}
+		let groups: Vec<Vec<usize>> = groups.into_values().collect();
+		let orders = if groups.is_empty() { vec![vec![]] } else { group_orders(&groups) };
+		if orders.len() > 1 {
+			self.stats.order_ambiguous_batches += 1;
+		}
+		let obs_batch_failed: BTreeSet<usize> = batch.iter().cloned().filter(|p| new_failed.contains(p)).collect();
+		let mut chosen: Option<(RecvModel, Vec<(usize, Verdict)>, BTreeSet<usize>)> = None;
+		let mut first_diff = String::new();
+		'search: for tolerate in [false, true] {
+			for order in orders.iter() {
+				let mut prerej: BTreeSet<usize> = BTreeSet::new();
+				for _round in 0..2 {
+					let mut m = self.model.clone();
+					let mut verdicts = vec![];
+					for p in order.iter() {
+						if prerej.contains(p) {
+							continue;
+						}
+						verdicts.push((*p, m.on_part(*p, height, now)));
+					}
+					let pred_fail: BTreeSet<usize> = verdicts.iter().filter(|(_, v)| matches!(v, Verdict::Fail(_))).map(|(p, _)| *p).chain(prerej.iter().cloned()).collect();
+					let pred_claim: Vec<&Shown> = verdicts.iter().filter_map(|(_, v)| if let Verdict::Claimable(s) = v { Some(s) } else { None }).collect();
+					let claim_match = pred_claim.len() == claimables.len()
+						&& pred_claim.iter().zip(claimables.iter()).all(|(s, e)| matches!(e, Event::PaymentClaimable { payment_hash, amount_msat, .. } if payment_hash.0 == s.hash && *amount_msat == s.amount));
+					if pred_fail == obs_batch_failed && claim_match {
+						chosen = Some((m, verdicts, prerej));
+						break 'search;
+					}
+					if first_diff.is_empty() {
+						first_diff = format!(
+							"model (order {:?}): fail {:?}, claimable {:?}; R: failed {:?}, claimable {:?}; verdicts {:?}",
+							order,
+							pred_fail,
+							pred_claim.iter().map(|s| (hex(&s.hash[..4]), s.amount, s.parts.clone())).collect::<Vec<_>>(),
+							obs_batch_failed,
+							claimables.iter().map(|e| if let Event::PaymentClaimable { payment_hash, amount_msat, .. } = e { (hex(&payment_hash.0[..4]), *amount_msat) } else { (String::new(), 0) }).collect::<Vec<_>>(),
+							verdicts.iter().map(|(p, v)| (*p, match v { Verdict::Fail(r) => *r, Verdict::Held => "held", Verdict::Claimable(_) => "claimable" })).collect::<Vec<_>>()
+						);
+					}
+					// R may refuse an HTLC for reasons of the channel it came over (not this property): accept
+					// additional failures of parts the model would have taken, and re-derive without them
+					let extra: BTreeSet<usize> = obs_batch_failed.difference(&pred_fail).cloned().collect();
+					if !tolerate || extra.is_empty() || !pred_fail.is_subset(&obs_batch_failed) || !prerej.is_empty() {
+						break;
+					}
+					prerej = extra;
+				}
+			}
+		}
+		let Some((m, verdicts, prerej)) = chosen else {
+			// classify: which clause does the disagreement touch?
+			let oracle = if claimables.len() > 0 && first_diff.contains("claimable []; R") { "claimable-without-valid-complete-set" } else { "receive-decision" };
+			return Err(fail(oracle, format!("after {}: {}", exp.what, first_diff)).with_key(format!("{}/{}", oracle, exp.what.split(' ').next().unwrap_or(""))));
+		};
+		self.model = m;
+		self.stats.valid_part_rejected += prerej.len();
+		let mut ci = 0;
+		for (p, v) in verdicts.iter() {
+			self.stats.decided += 1;
+			match v {
+				Verdict::Fail(r) => {
+					self.stats.fail_reasons.insert(r);
+					self.note(format!("  part#{} -> failed back ({})", p, r));
+				},
+				Verdict::Held => self.note(format!("  part#{} -> held", p)),
+				Verdict::Claimable(sh) => {
+					let ev = claimables[ci];
+					ci += 1;
+					let pre = self.check_claimable_event(ev, sh, height)?;
+					self.stats.claimable_events += 1;
+					if sh.parts.len() > 1 {
+						self.stats.multi_part_claimable += 1;
+					}
+					self.note(format!("  part#{} -> PaymentClaimable amount {} deadline {} parts {:?}", p, sh.amount, sh.deadline, sh.parts));
+					self.shown_sets.push(sh.parts.clone());
+					self.user.insert(sh.hash, UserView { shown: sh.clone(), preimage: pre, emitted_at_height: height });
+				},
+			}
+		}
+
+		// failures outside the batch: exactly the expected ones
+		for p in exp.must_fail.iter() {
+			if self.wireable(*p) && !self.failed.contains(p) {
+				return Err(fail("not-failed-back", format!("after {}: part#{} ({:?}) should have been failed back by R but no update_fail_htlc was sent", exp.what, p, self.brief(*p))).with_key(format!("not-failed-back/{}", exp.what.split(' ').next().unwrap_or(""))));
+			}
+		}
+		for p in new_failed.iter() {
+			if batch.contains(p) || exp.must_fail.contains(p) {
+				continue;
+			}
+			// R failed a part it was holding although no rule asked for it
+			let in_shown = self.user.values().any(|u| u.shown.parts.contains(p) && height < u.shown.deadline) && self.model.live_parts().contains(p);
+			if in_shown {
+				return Err(fail("shown-part-failed-before-deadline", format!("after {}: R failed part#{} of a payment shown as claimable at height {} < deadline", exp.what, p, height)));
+			}
+			if self.model.orphaned.remove(p) {
+				continue;
+			}
+			self.stats.valid_part_rejected += 1;
+			self.model.forget_part(*p);
+		}
+
+		// fulfils: exactly what a claim released
+		for p in new_fulfilled.iter() {
+			if !exp.fulfill.contains(p) {
+				return Err(fail("fulfill-without-claim", format!("after {}: R sent update_fulfill_htlc for part#{} which no successful claim_funds covers", exp.what, p)));
+			}
+		}
+		for p in exp.fulfill.iter() {
+			if self.wireable(*p) && !self.fulfilled.contains(p) {
+				return Err(fail("claim-not-released", format!("after {}: part#{} of the claimed payment got no update_fulfill_htlc", exp.what, p)));
+			}
+		}
+		match (&exp.claimed, claimeds.len()) {
+			(None, 0) => {},
+			(None, n) => return Err(fail("claimed-event-unexpected", format!("after {}: {} PaymentClaimed event(s) although nothing was released", exp.what, n))),
+			(Some(sh), n) => {
+				vensure!(n == 1, "claimed-event", "after {}: {} PaymentClaimed events for one claim", exp.what, n);
+				let Event::PaymentClaimed { payment_hash, amount_msat, htlcs, sender_intended_total_msat, .. } = claimeds[0] else { unreachable!() };
+				vensure!(payment_hash.0 == sh.hash && *amount_msat == sh.amount, "claimed-event", "PaymentClaimed amount {} (hash {}), shown amount {}", amount_msat, hex(&payment_hash.0[..4]), sh.amount);
+				let mut got: Vec<(usize, u64, u32)> = htlcs.iter().map(|h| (self.sim.chans.iter().position(|c| c.id == h.channel_id).unwrap_or(99), h.value_msat, h.cltv_expiry)).collect();
+				got.sort();
+				let mut want: Vec<(usize, u64, u32)> = sh.parts.iter().map(|p| (self.model.parts[*p].chan, self.model.parts[*p].amt, self.model.parts[*p].cltv)).collect();
+				want.sort();
+				vensure!(got == want, "claimed-event", "PaymentClaimed lists HTLCs {:?}, the payment consisted of {:?}", got, want);
+				vensure!(*sender_intended_total_msat == Some(sh.total), "claimed-event", "sender_intended_total_msat {:?} vs announced total {}", sender_intended_total_msat, sh.total);
+				self.stats.claimed_events += 1;
+				self.claimed_sets.push(sh.parts.clone());
+			},
+		}
+		Ok(())
+	}
+
+	fn brief(&self, p: usize) -> (usize, u64, u64, u32) {
+		let x = &self.model.parts[p];
+		(x.chan, x.htlc_id, x.amt, x.cltv)
+	}
+
+	fn mine(&mut self, n: u32, time: u32) -> Vec<usize> {
+		let mut failed = vec![];
+		for i in 0..n {
+			let txs = if i == 0 { self.sim.chain.mempool.clone() } else { vec![] };
+			self.sim.c04_mine_at(txs, time);
+			self.now = self.now.max(time as u64);
+			let h = self.height();
+			failed.extend(self.model.on_block(h));
+			// orphaned parts: the documented per-HTLC fail-back rule keeps applying
+		}
+		failed
+	}
+}
+
+fn pick_reg(r: u16, n: usize) -> usize {
+	pick(r, n)
+}
+
+fn resolve_send(run: &Run, s: &SendSpec) -> Option<(SendReq, bool, bool)> {
+	let regs = &run.model.regs;
+	let n = regs.len();
+	let reg = &regs[pick_reg(s.reg, n)];
+	let live: Vec<usize> = (0..run.sim.chans.len()).filter(|c| !run.closed.contains(c)).collect();
+	if live.is_empty() {
+		return None;
+	}
+	let chan = live[pick(s.chan, live.len())];
+	let a = reg.min_amt.unwrap_or(DEFAULT_AMT);
+	let total = match &s.total {
+		TotalSpec::Min => a,
+		TotalSpec::Plus(d) => (a as i64 + d).max(1) as u64,
+		TotalSpec::Times(k) => a * *k as u64,
+		TotalSpec::Abs(v) => *v,
+		TotalSpec::Zero => 0,
+	};
+	let t = if total == 0 { a } else { total };
+	let sent = run.sent_sum.get(&reg.hash).cloned().unwrap_or(0);
+	let amt = match &s.amt {
+		AmtSpec::Share(k) => t * *k as u64 / 8,
+		AmtSpec::Rest(d) => {
+			if sent < t {
+				((t - sent) as i64 + *d as i64).max(1) as u64
+			} else {
+				t / 4
+			}
+		},
+		AmtSpec::Abs(v) => *v,
+	}
+	.clamp(1000, 400_000_000); // the channels' htlc_minimum_msat is 1000
+	let mut tampered = false;
+	let secret = match &s.secret {
+		SecretSpec::Of(j) => {
+			let r2 = &regs[pick_reg(*j, n)];
+			if r2.secret != reg.secret {
+				tampered = true;
+			}
+			r2.secret
+		},
+		SecretSpec::Flip { reg: j, bit } => {
+			tampered = true;
+			let mut x = regs[pick_reg(*j, n)].secret.unwrap_or(sha(&[*bit]));
+			x[*bit as usize / 8] ^= 1 << (*bit % 8);
+			Some(x)
+		},
+		SecretSpec::Random(b) => {
+			tampered = true;
+			Some(sha(&[0xc4, *b]))
+		},
+		SecretSpec::None => {
+			tampered = true;
+			None
+		},
+	};
+	let metadata = match &s.meta {
+		MetaSpec::Of(j) => regs[pick_reg(*j, n)].meta_enc.clone(),
+		MetaSpec::Tamper { reg: j, pos, xor } => match regs[pick_reg(*j, n)].meta_enc.clone() {
+			Some(mut v) if !v.is_empty() => {
+				let i = *pos as usize % v.len();
+				v[i] ^= *xor;
+				Some(v)
+			},
+			_ => Some(vec![*xor]),
+		},
+		MetaSpec::Plain(j) => regs[pick_reg(*j, n)].meta_plain.clone(),
+		MetaSpec::None => None,
+		MetaSpec::Raw(v) => Some(v.clone()),
+	};
+	if metadata != reg.meta_enc {
+		tampered = true;
+	}
+	if total != a {
+		tampered = true;
+	}
+	let mut tlvs: Vec<(u64, Vec<u8>)> = vec![];
+	for (k, v) in s.tlvs.iter() {
+		let t = TLV_TYPES[*k as usize % TLV_TYPES.len()];
+		if !tlvs.iter().any(|(x, _)| *x == t) {
+			tlvs.push((t, v.clone()));
+		}
+	}
+	tlvs.sort_by_key(|(k, _)| *k);
+	let (final_delta, boundary) = match &s.cltv {
+		CltvSpec::Boundary(k) => ((HTLC_FAIL_BACK_BUFFER as i32 + 1 + *k as i32).max(1) as u32, true),
+		CltvSpec::MinFinal(k) => ((reg.min_cltv.unwrap_or(41) as i32 - 1 + *k as i32).max(1) as u32, reg.min_cltv.is_some()),
+		CltvSpec::Normal => (70, false),
+		CltvSpec::Far(x) => (80 + *x as u32, false),
+	};
+	let keysend_preimage = if reg.kind == RegKind::Keysend && !s.as_invoice { Some(reg.preimage) } else { None };
+	Some((SendReq { chan, hash: reg.hash, amt, final_delta, secret, total, metadata, tlvs, keysend_preimage }, tampered, boundary))
+}
+
+fn run_case(c: &Case, ctx: &mut Ctx) -> CaseResult {
+	let sim = build_world(&c.world);
+	let co = {
+		let mut co = CommitOracle::new(&sim);
+		co.allow_force_close = true;
+		co
+	};
+	let cursor = sim.log.len();
+	let mut run = Run {
+		sim,
+		model: RecvModel::new(),
+		co,
+		now: initial_time(),
+		cursor,
+		batch: vec![],
+		wire: BTreeMap::new(),
+		failed: BTreeSet::new(),
+		fulfilled: BTreeSet::new(),
+		user: BTreeMap::new(),
+		closed: BTreeSet::new(),
+		dust_at_close: BTreeMap::new(),
+		sent_sum: BTreeMap::new(),
+		base_capacity: vec![],
+		shown_sets: vec![],
+		claimed_sets: vec![],
+		stats: Stats::default(),
+		trace: vec![],
+		replay: ctx.replay,
+		foreign: None,
+		aborted: None,
+	};
+	let r = run_inner(c, ctx, &mut run);
+	if ctx.replay {
+		println!("==== steps ====");
+		for l in run.trace.iter() {
+			println!("{}", l);
+		}
+		if r.is_err() {
+			println!("==== history ====\n{}", dump_history(&run.sim));
+		}
+	}
+	r
+}
+
+fn run_inner(c: &Case, ctx: &mut Ctx, run: &mut Run) -> CaseResult {
+	for i in 0..run.sim.chans.len() {
+		run.base_capacity.push(run.sim.chan_details(R, i).map(|d| d.outbound_capacity_msat).unwrap_or(0));
+	}
+	for (i, rs) in c.regs.iter().enumerate() {
+		let prev = run.model.regs.clone();
+		match register(&run.sim, i, rs, run.now, &prev) {
+			Ok(info) => run.model.regs.push(info),
+			Err(e) => return Err(fail("registration", e)),
+		}
+	}
+	let nregs = run.model.regs.len();
+	for (si, step) in c.steps.iter().enumerate() {
+		if run.foreign.is_some() || run.aborted.is_some() {
+			break;
+		}
+		match step {
+			Step::Send(s) => {
+				if run.model.parts.len() >= 40 {
+					continue;
+				}
+				let Some((req, tampered, boundary)) = resolve_send(run, s) else { continue };
+				if matches!(s.total, TotalSpec::Zero) {
+					ctx.label("zero-total-sent");
+				}
+				let pid = run.model.parts.len();
+				match run.sim.c04_send(&req, pid) {
+					Ok(part) => {
+						run.note(format!("[{}] send part#{} chan {} htlc {} hash {} amt {} total {} cltv {} secret {:?} meta {:?} tlvs {:?} keysend {}", si, pid, part.chan, part.htlc_id, hex(&part.hash[..4]), part.amt, part.total, part.cltv, part.secret.map(|s| hex(&s[..4])), part.metadata.as_ref().map(|m| m.len()), part.tlvs, part.keysend.is_some()));
+						run.wire.insert((part.chan, part.htlc_id), pid);
+						*run.sent_sum.entry(part.hash).or_insert(0) += part.amt;
+						run.model.parts.push(part);
+						run.batch.push(pid);
+						run.stats.parts += 1;
+						if tampered {
+							run.stats.tampered_parts += 1;
+						}
+						if boundary {
+							run.stats.boundary_parts += 1;
+						}
+					},
+					Err(e) => {
+						run.note(format!("[{}] send refused: {}", si, e));
+						ctx.label(&format!("send-refused:{}", e.chars().take(60).collect::<String>()));
+						if std::env::var("VERIF_C04_DEBUG").is_ok() {
+							ctx.label(&format!("dbg-refused:{} keysend={} delta={} amt={} total={} tlvs={} meta={:?}", e.chars().take(30).collect::<String>(), req.keysend_preimage.is_some(), req.final_delta, req.amt, req.total, req.tlvs.len(), req.metadata.as_ref().map(|m| m.len())));
+						}
+						// the sender may have queued events about the failed attempt
+						run.sim.process_events(run.sim.chans[req.chan].a);
+					},
+				}
+				run.tripwire();
+			},
+			Step::Forwards => {
+				run.note(format!("[{}] forwards (height {})", si, run.height()));
+				run.settle(Expect::none("forwards"))?;
+			},
+			Step::Tick => {
+				run.note(format!("[{}] timer tick", si));
+				run.sim.timer_tick(R);
+				let may = run.model.on_tick();
+				let mut e = Expect::none("tick");
+				e.may_fail = may;
+				run.settle(e)?;
+			},
+			Step::Mine { n } => {
+				let t = run.now as u32;
+				let failed = run.mine(*n as u32, t);
+				run.note(format!("[{}] mined {} -> height {}; deadline reached for parts {:?}", si, n, run.height(), failed));
+				if !failed.is_empty() {
+					run.stats.fail_reasons.insert("deadline-reached");
+				}
+				let mut e = Expect::none("mine");
+				e.must_fail = failed;
+				run.settle(e)?;
+			},
+			Step::MineTime { reg, k } => {
+				let rg = run.model.regs[pick_reg(*reg, nregs)].clone();
+				let t = if rg.expiry_abs == u64::MAX { run.now + 10_000 } else { (rg.expiry_abs as i64 + *k as i64) as u64 };
+				let t = t.max(run.now).min(u32::MAX as u64 - 1) as u32;
+				let failed = run.mine(1, t);
+				run.note(format!("[{}] mined 1 block with header time {} (registration expiry {} {:+}) -> height {}", si, t, rg.expiry_abs, k, run.height()));
+				ctx.label("time-advanced");
+				let mut e = Expect::none("mine-time");
+				e.must_fail = failed;
+				run.settle(e)?;
+			},
+			Step::MineToDeadline { reg, k } => {
+				let h = run.model.regs[pick_reg(*reg, nregs)].hash;
+				let Some(u) = run.user.get(&h) else { continue };
+				let target = u.shown.deadline as i64 + *k as i64;
+				let diff = target - run.height() as i64;
+				if diff <= 0 || diff > 150 {
+					continue;
+				}
+				let t = run.now as u32;
+				let failed = run.mine(diff as u32, t);
+				run.note(format!("[{}] mined {} to deadline{:+} -> height {}; deadline reached for parts {:?}", si, diff, k, run.height(), failed));
+				let mut e = Expect::none("mine-to-deadline");
+				e.must_fail = failed;
+				run.settle(e)?;
+			},
+			Step::Claim { reg, known_tlvs } => {
+				let h = run.model.regs[pick_reg(*reg, nregs)].hash;
+				do_claim(run, ctx, si, h, *known_tlvs)?;
+			},
+			Step::FailBack { reg } => {
+				let h = run.model.regs[pick_reg(*reg, nregs)].hash;
+				do_fail_back(run, si, h)?;
+			},
+			Step::ForceClose { chan } => {
+				let live: Vec<usize> = (0..run.sim.chans.len()).filter(|c| !run.closed.contains(c)).collect();
+				if live.len() <= 1 {
+					continue; // keep at least one channel to pay over
+				}
+				let ci = live[pick(*chan, live.len())];
+				let cinfo = run.sim.chans[ci].clone();
+				if let Some(d) = run.sim.chan_details(R, ci) {
+					// BOLT-3 trimming on R's own commitment (the one R broadcasts): a received HTLC has an output iff
+					// its value reaches R's dust limit plus, without anchors, the fee of the HTLC-success transaction
+					let feerate = cinfo.open.common_fields.commitment_feerate_sat_per_1000_weight as u64;
+					let limit = cinfo.accept.common_fields.dust_limit_satoshis + if c.world.anchors { 0 } else { feerate * 703 / 1000 };
+					for h in d.pending_inbound_htlcs.iter() {
+						if let Some(pid) = run.wire.get(&(ci, h.htlc_id)) {
+							run.dust_at_close.insert(*pid, h.amount_msat / 1000 < limit);
+						}
+					}
+				}
+				let peer = run.sim.w.node_id(cinfo.a);
+				let r = run.sim.w.nodes[R].node.force_close_broadcasting_latest_txn(&cinfo.id, &peer, "c04 harness".to_string());
+				run.sim.rec(SEvent::Api { node: R, what: format!("force_close chan {}", ci), ok: r.is_ok(), detail: format!("{:?}", r) });
+				run.sim.drain(R);
+				run.closed.insert(ci);
+				run.note(format!("[{}] R force-closed chan {}", si, ci));
+				ctx.label("force-closed");
+				run.settle(Expect::none("force-close"))?;
+			},
+		}
+	}
+	if run.foreign.is_none() && run.aborted.is_none() {
+		run.settle(Expect::none("final-forwards"))?;
+		let hashes: Vec<[u8; 32]> = run.user.keys().cloned().collect();
+		for h in hashes {
+			if run.aborted.is_some() {
+				break;
+			}
+			match c.finale {
+				1 => do_claim(run, ctx, 9000, h, true)?,
+				2 => do_fail_back(run, 9001, h)?,
+				_ => {},
+			}
+		}
+	}
+	// every HTLC R still holds must be failed back once it is within HTLC_FAIL_BACK_BUFFER of its expiry
+	let mut forgotten: Option<Failure> = None;
+	if run.foreign.is_none() && run.aborted.is_none() {
+		for _ in 0..8 {
+			let live: Vec<usize> = run.model.live_parts().into_iter().filter(|p| run.wireable(*p) && !run.failed.contains(p)).collect();
+			if live.is_empty() {
+				break;
+			}
+			let target = live.iter().map(|p| run.model.parts[*p].cltv - HTLC_FAIL_BACK_BUFFER).min().unwrap();
+			let h = run.height();
+			let n = if target > h { target - h } else { 1 };
+			if n > 260 {
+				ctx.label("expiry-too-far-to-mine");
+				break;
+			}
+			let t = run.now as u32;
+			let mut failed = run.mine(n, t);
+			let h = run.height();
+			let orphans: Vec<usize> = run.model.orphaned.iter().cloned().filter(|p| h >= run.model.parts[*p].cltv - HTLC_FAIL_BACK_BUFFER).collect();
+			run.note(format!("[end] mined {} -> height {}; deadline reached for parts {:?}, forgotten parts {:?}", n, h, failed, orphans));
+			let e0 = Expect { must_fail: failed.clone(), may_fail: vec![], fulfill: vec![], claimed: None, what: "final-expiry".into() };
+			run.settle(e0)?;
+			for p in orphans {
+				if run.wireable(p) && !run.failed.contains(&p) && forgotten.is_none() {
+					// raised only after every other oracle of the case has passed (see the end of this function)
+					forgotten = Some(fail(
+						"forgotten-part-not-failed-back",
+						format!("part#{} {:?} was left over by a claim_funds call that released nothing; at height {} it is within HTLC_FAIL_BACK_BUFFER of its expiry and R still has not failed it back", p, run.brief(p), h),
+					));
+				}
+				run.model.orphaned.remove(&p);
+			}
+			failed.clear();
+			if run.foreign.is_some() || run.aborted.is_some() {
+				break;
+			}
+		}
+	}
+	if let Some(a) = run.aborted {
+		ctx.label(&format!("aborted:{}", a));
+		return Ok(());
+	}
+	if let Some(f) = &run.foreign {
+		ctx.label(&format!("foreign-failure:C01:{}", f));
+		return Ok(());
+	}
+
+	// (e) all-or-nothing over the whole history: no payment with both fulfilled and failed parts
+	for set in run.shown_sets.iter() {
+		let ful: Vec<&usize> = set.iter().filter(|p| run.fulfilled.contains(p)).collect();
+		let fai: Vec<&usize> = set.iter().filter(|p| run.failed.contains(p)).collect();
+		if !ful.is_empty() && !fai.is_empty() {
+			return Err(fail("all-or-nothing", format!("payment with parts {:?}: R fulfilled {:?} and failed {:?}", set, ful, fai)));
+		}
+	}
+	for p in run.fulfilled.iter() {
+		if !run.claimed_sets.iter().any(|s| s.contains(p)) {
+			return Err(fail("fulfill-without-claim", format!("part#{} fulfilled but never part of a PaymentClaimed", p)));
+		}
+	}
+	// (c) crediting: on every open channel R's balance moved by exactly the fulfilled parts
+	for ci in 0..run.sim.chans.len() {
+		if run.closed.contains(&ci) {
+			continue;
+		}
+		let Some(d) = run.sim.chan_details(R, ci) else { continue };
+		let credited: u64 = run.fulfilled.iter().filter(|p| run.model.parts[**p].chan == ci).map(|p| run.model.parts[*p].amt).sum();
+		let got = d.outbound_capacity_msat as i128 - run.base_capacity[ci] as i128;
+		if got != credited as i128 {
+			return Err(fail("credit", format!("chan {}: R's balance moved by {} msat, fulfilled parts sum to {} msat", ci, got, credited)));
+		}
+	}
+	// (c) parts claimed on a channel that R had closed: non-dust parts are claimable on chain, dust is forfeited
+	let closed_claimed: Vec<usize> = run.claimed_sets.iter().flatten().cloned().filter(|p| run.closed.contains(&run.model.parts[*p].chan)).collect();
+	if !closed_claimed.is_empty() {
+		run.stats.closed_chan_claims += closed_claimed.len();
+		let t = run.now as u32;
+		run.mine(1, t);
+		let _ = run.sim.c04_flush();
+		let bals = run.sim.w.nodes[R].chain_monitor.chain_monitor.get_claimable_balances(&[]);
+		for p in closed_claimed {
+			let part = run.model.parts[p].clone();
+			let Some(dust) = run.dust_at_close.get(&p).cloned() else { continue };
+			let pre = run.model.regs.iter().find(|r| r.hash == part.hash).map(|r| r.preimage).unwrap_or([0; 32]);
+			let in_balance = bals.iter().any(|b| matches!(b, lightning::chain::channelmonitor::Balance::ContentiousClaimable { payment_hash, amount_satoshis, .. } if payment_hash.0 == part.hash && *amount_satoshis == part.amt / 1000));
+			let on_chain = run.sim.broadcasts[R].iter().any(|tx| tx.input.iter().any(|i| i.witness.iter().any(|w| w == &pre[..])));
+			if dust {
+				ctx.label("dust-part-forfeited-on-closed-channel");
+				vensure!(!in_balance, "credit-closed-channel", "dust part#{} of a closed channel shows up as claimable balance", p);
+			} else {
+				ctx.label("part-claimed-on-closed-channel");
+				vensure!(in_balance || on_chain, "credit-closed-channel", "part#{} ({} msat) was claimed on a channel closed before the claim, but R neither lists it as ContentiousClaimable nor broadcast a transaction with the preimage; balances {:?}", p, part.amt, bals);
+			}
+		}
+	}
+
+	if let Some(f) = forgotten {
+		if std::env::var("VERIF_C04_DEMOTE_FORGOTTEN").is_ok() {
+			ctx.label("demoted:forgotten-part-not-failed-back");
+		} else {
+			return Err(f);
+		}
+	}
+	let st = &run.stats;
+	ctx.label_if(st.claimable_events > 0, "payment-claimable");
+	ctx.label_if(st.multi_part_claimable > 0, "mpp-claimable");
+	ctx.label_if(st.claimed_events > 0, "payment-claimed");
+	ctx.label_if(st.claims_before_deadline > 0, "claim-before-deadline");
+	ctx.label_if(st.claims_at_or_after_deadline > 0, "claim-at-or-after-deadline");
+	ctx.label_if(st.claim_near_deadline > 0, "claim-within-2-of-deadline");
+	ctx.label_if(st.order_ambiguous_batches > 0, "multi-channel-batch");
+	ctx.label_if(st.valid_part_rejected > 0, "valid-part-rejected");
+	ctx.label_if(st.orphaned > 0, "claim-released-nothing-parts-left-over");
+	ctx.label_if(st.closed_chan_claims > 0, "claim-on-closed-channel");
+	ctx.label_if(c.world.chans.len() > 1, "multi-channel");
+	ctx.label_if(c.world.chans.iter().any(|(s, _)| *s == 1), "two-senders");
+	for r in st.fail_reasons.iter() {
+		ctx.label(&format!("fail:{}", r));
+	}
+	ctx.sub_evaluations(st.decided as u64);
+	ctx.nontrivial_if(st.decided > 0 && (st.parts >= 2 || st.tampered_parts > 0 || st.boundary_parts > 0 || st.claim_near_deadline > 0));
+	ctx.summary(json!({"channels": c.world.chans.len(), "registrations": c.regs.len(), "parts": st.parts, "decided": st.decided, "claimable": st.claimable_events, "claimed": st.claimed_events, "fail_reasons": st.fail_reasons.iter().collect::<Vec<_>>()}));
+	Ok(())
+}
+
+fn do_claim(run: &mut Run, ctx: &mut Ctx, si: usize, h: [u8; 32], known_tlvs: bool) -> CaseResult {
+	let Some(u) = run.user.remove(&h) else { return Ok(()) };
+	let height = run.height();
+	let d = u.shown.deadline;
+	if height < d {
+		run.stats.claims_before_deadline += 1;
+	} else {
+		run.stats.claims_at_or_after_deadline += 1;
+	}
+	if (height as i64 - d as i64).abs() <= 2 {
+		run.stats.claim_near_deadline += 1;
+	}
+	let node = run.sim.w.nodes[R].node;
+	if known_tlvs {
+		node.claim_funds_with_known_custom_tlvs(PaymentPreimage(u.preimage));
+	} else {
+		node.claim_funds(PaymentPreimage(u.preimage));
+	}
+	run.sim.rec(SEvent::Api { node: R, what: format!("claim_funds hash {} known_tlvs={}", hex(&h[..4]), known_tlvs), ok: true, detail: String::new() });
+	run.sim.drain(R);
+	let out = run.model.on_claim(&h, known_tlvs);
+	run.note(format!("[{}] claim_funds hash {} at height {} (deadline {}, shown at {}): model {} fulfilled {:?} failed {:?} left over {:?}", si, hex(&h[..4]), height, d, u.emitted_at_height, out.what, out.fulfilled, out.failed, out.orphaned));
+	// (c) strictly below the advertised deadline the claim must release every part that was shown
+	if height < d && (known_tlvs || !u.shown.tlvs.iter().any(|(k, _)| k % 2 == 0)) && out.fulfilled != u.shown.parts {
+		return Err(fail("claim-before-deadline-not-complete", format!("claim_funds at height {} < deadline {}: the model of R's own fail-back rules says parts {:?} of the shown {:?} are available", height, d, out.fulfilled, u.shown.parts)));
+	}
+	run.stats.orphaned += out.orphaned.len();
+	ctx.label(&format!("claim:{}", out.what));
+	let e = Expect { must_fail: out.failed.clone(), may_fail: vec![], fulfill: out.fulfilled.clone(), claimed: if out.fulfilled.is_empty() { None } else { out.shown.clone() }, what: format!("claim ({})", out.what) };
+	run.settle(e)
+}
+
+fn do_fail_back(run: &mut Run, si: usize, h: [u8; 32]) -> CaseResult {
+	if run.user.remove(&h).is_none() {
+		return Ok(());
+	}
+	run.sim.w.nodes[R].node.fail_htlc_backwards(&PaymentHash(h));
+	run.sim.rec(SEvent::Api { node: R, what: format!("fail_htlc_backwards hash {}", hex(&h[..4])), ok: true, detail: String::new() });
+	run.sim.drain(R);
+	let failed = run.model.on_fail_back(&h);
+	run.note(format!("[{}] fail_htlc_backwards hash {}: parts {:?}", si, hex(&h[..4]), failed));
+	if !failed.is_empty() {
+		run.stats.fail_reasons.insert("user-fail-back");
+	}
+	let mut e = Expect::none("fail-back");
+	e.must_fail = failed;
+	run.settle(e)
+}
+
+// -------------------------------------------------------------------------------------------------
+// pure companion: the secret / preimage API on a long-lived node
+// -------------------------------------------------------------------------------------------------
+
+#[derive(Clone, Debug, Serialize, Deserialize)]
+struct ApiCase {
+	amt: Option<u64>,
+	secs: u32,
+	min_cltv: Option<u16>,
+	meta: Option<Vec<u8>>,
+	masks: Vec<[u8; 4]>,
+	meta_pos: u8,
+	meta_xor: u8,
+	user_hash_seed: u8,
+}
+
+fn api_strat() -> impl Strategy<Value = ApiCase> {
+	(
+		prop_oneof![Just(None), any::<u64>().prop_map(|v| Some(v % 2_000_000_000_000_000)), amount_strat().prop_map(Some)],
+		prop_oneof![Just(0u32), Just(3600u32), any::<u32>()],
+		prop_oneof![Just(None), any::<u16>().prop_map(Some)],
+		prop_oneof![Just(None), proptest::collection::vec(any::<u8>(), 0..64).prop_map(Some)],
+		proptest::collection::vec(any::<[u8; 4]>(), 0..4),
+		any::<u8>(),
+		1u8..=255,
+		any::<u8>(),
+	)
+		.prop_map(|(amt, secs, min_cltv, meta, masks, meta_pos, meta_xor, user_hash_seed)| ApiCase { amt, secs, min_cltv, meta, masks, meta_pos, meta_xor, user_hash_seed })
+}
+
+thread_local! {
+	static API_NODE: std::cell::RefCell<Option<(Sim, u64)>> = std::cell::RefCell::new(None);
+}
+
+fn api_oracle(c: &ApiCase, ctx: &mut Ctx) -> CaseResult {
+	API_NODE.with(|cell| {
+		let mut g = cell.borrow_mut();
+		if g.is_none() {
+			let w = netsim::world::World::new(netsim::world::WorldCfg { n: 2, configs: vec![netsim::world::default_config(); 2], keep_images: false, deferred_monitor: false, connect_style: lightning::ln::functional_test_utils::ConnectStyle::BestBlockFirst, node_styles: vec![], disable_revocation_policy: vec![] });
+			*g = Some((Sim::new(w), 0));
+		}
+		let (sim, count) = g.as_mut().unwrap();
+		*count += 1;
+		if *count % 512 == 0 {
+			sim.trim();
+		}
+		let node = sim.w.nodes[0].node;
+		let get = |h: [u8; 32], s: [u8; 32], m: Option<Vec<u8>>| -> Result<([u8; 32], Option<Vec<u8>>), ()> {
+			let mut m = m;
+			match node.get_payment_preimage_decrypt_metadata(PaymentHash(h), PaymentSecret(s), m.as_deref_mut()) {
+				Ok(p) => Ok((p.0, m)),
+				Err(_) => Err(()),
+			}
+		};
+		let (hash, secret, enc) = match node.create_inbound_payment(c.amt, c.secs, c.min_cltv, c.meta.clone()) {
+			Ok(x) => x,
+			Err(()) => {
+				// documented: errors if the amount exceeds the total bitcoin supply (or the fields do not fit)
+				ctx.label("registration-refused");
+				return Ok(());
+			},
+		};
+		let (h, s) = (hash.0, secret.0);
+		// round trip: the issued secret authenticates the hash, yields its preimage and the registered metadata
+		match get(h, s, enc.clone()) {
+			Ok((p, m)) => {
+				vensure!(sha(&p) == h, "api-roundtrip", "preimage returned for a fresh registration does not hash to its payment hash");
+				vensure!(m == c.meta, "api-roundtrip", "metadata decrypts to {:?}, registered {:?}", m, c.meta);
+			},
+			Err(()) => return Err(fail("api-roundtrip", "fresh (hash, secret, metadata) rejected".into())),
+		}
+		let mut evals = 1u64;
+		// every single-bit change of the secret must be rejected
+		for bit in 0..256usize {
+			let mut t = s;
+			t[bit / 8] ^= 1 << (bit % 8);
+			evals += 1;
+			if let Ok((p, _)) = get(h, t, enc.clone()) {
+				return Err(fail("api-tampered-secret-accepted", format!("secret with bit {} flipped accepted (preimage hashes to the hash: {})", bit, sha(&p) == h)).with_key(format!("api-tampered-secret-accepted/bit{}", bit)));
+			}
+		}
+		for mk in c.masks.iter() {
+			let mut t = s;
+			for (i, b) in mk.iter().enumerate() {
+				t[(*b as usize + i * 7) % 32] ^= b | 1;
+			}
+			evals += 1;
+			if t != s && get(h, t, enc.clone()).is_ok() {
+				return Err(fail("api-tampered-secret-accepted", format!("secret xor mask {:?} accepted", mk)));
+			}
+		}
+		// metadata is committed to
+		let mut variants: Vec<Option<Vec<u8>>> = vec![];
+		match &enc {
+			Some(v) => {
+				variants.push(None);
+				if !v.is_empty() {
+					let mut t = v.clone();
+					let i = c.meta_pos as usize % t.len();
+					t[i] ^= c.meta_xor;
+					variants.push(Some(t));
+					variants.push(Some(v[..v.len() - 1].to_vec()));
+				}
+				let mut t = v.clone();
+				t.push(c.meta_xor);
+				variants.push(Some(t));
+			},
+			None => {
+				variants.push(Some(vec![]));
+				variants.push(Some(vec![c.meta_xor]));
+			},
+		}
+		for v in variants {
+			evals += 1;
+			if get(h, s, v.clone()).is_ok() {
+				return Err(fail("api-tampered-metadata-accepted", format!("metadata {:?} accepted, issued {:?}", v, enc)));
+			}
+		}
+		// a second registration: secrets and hashes are not interchangeable
+		let (hash2, secret2, enc2) = node.create_inbound_payment(c.amt, c.secs, c.min_cltv, c.meta.clone()).map_err(|_| fail("api-roundtrip", "second identical registration refused".into()))?;
+		vensure!(hash2 != hash && secret2 != secret, "api-unique", "two registrations share hash or secret");
+		evals += 2;
+		vensure!(get(h, secret2.0, enc2.clone()).is_err(), "api-cross-accepted", "secret of another registration accepted for this hash");
+		vensure!(get(hash2.0, s, enc.clone()).is_err(), "api-cross-accepted", "this secret accepted for another registration's hash");
+		// user-supplied hashes: LDK never knows a preimage
+		let uh = sha(&[0x55, c.user_hash_seed]);
+		if let Ok((us, uenc)) = node.create_inbound_payment_for_hash(PaymentHash(uh), c.amt, c.secs, c.min_cltv, c.meta.clone()) {
+			evals += 2;
+			vensure!(get(uh, us.0, uenc.clone()).is_err(), "api-user-hash-preimage", "a preimage was returned for a user-supplied hash");
+			vensure!(get(h, us.0, uenc).is_err(), "api-cross-accepted", "for_hash secret accepted for an LDK hash");
+		}
+		ctx.sub_evaluations(evals);
+		ctx.label_if(c.meta.is_some(), "with-metadata");
+		ctx.label_if(c.min_cltv.is_some(), "with-min-final-cltv");
+		ctx.nontrivial();
+		Ok(())
+	})
+}
+
+fn main() {
+	install_recording_signer();
+	let mut c = Check::new("C04", "exploration");
+	c.assume("senders are unmodified LDK nodes whose send API is called with adversarial RecipientOnionFields, amounts, totals and final CLTV deltas; one HTLC per send call, direct channels to R");
+	c.assume("R's clock is the highest block header time it has seen; registrations expire at registration time + expiry + 7200 s (LDK's margin); MPP timeout: may fail from the first timer tick (test builds), must fail after 3");
+	c.assume("HTLC_FAIL_BACK_BUFFER = 39 blocks (pub const); a part is accepted only if expiry > height + 40; claim_deadline = min expiry - 39");
+	c.assume("a valid part that R fails back although the model would accept it is tolerated (label valid-part-rejected): refusing money is not a violation of this property");
+	c.assume("phantom-node and BOLT-12 / blinded receives are not generated; CommitOracle (C01) runs as a tripwire only");
+	c.part_with(
+		PartSpec {
+			name: "receive",
+			rule: "R with 1-3 channels from 1-2 senders, 1-3 registrations (create_inbound_payment / _for_hash / keysend, optional minimum, expiry, min_final_cltv, metadata; the same hash registered twice), 3-30 steps: sends with generated secret (valid, other registration's, single bit flipped, random, none), total (exact, +-1, multiples), amounts (shares, exact rest, +-1), metadata, custom TLVs and final CLTV around the acceptance boundaries, over any channel in any order, timer ticks, blocks, header-time jumps to a registration's expiry +-1 s, mining to the advertised claim_deadline -3..+2, claim_funds (with / without known TLVs), fail_htlc_backwards, R force-closing a channel; every decision of R is compared with the reference model, every PaymentClaimable / PaymentClaimed field with the parts, every fulfil / fail with the claims. Non-trivial: R decided on >=1 part and the case has >=2 parts, a tampered field, a CLTV at a boundary or a claim within 2 blocks of the deadline",
+			quick_cases: 3000,
+			thorough_cases: 100_000,
+			max_shrink: 600,
+		},
+		|| case_strat(30),
+		run_case,
+	);
+	c.part_with(
+		PartSpec {
+			name: "secret-sweep",
+			rule: "one channel, 4-16 single-part payments per case with the secret of registration 0 bit-flipped (all 256 positions reachable), replaced by another registration's or random, metadata tampered, total +-1; each is processed alone and must be failed back unless every field is the issued one; then an untampered payment is claimed. Non-trivial: as above",
+			quick_cases: 1000,
+			thorough_cases: 40_000,
+			max_shrink: 400,
+		},
+		|| sweep_strat(16),
+		run_case,
+	);
+	c.part_with(
+		PartSpec {
+			name: "preimage-api",
+			rule: "create_inbound_payment on a long-lived node with generated amount / expiry / min_final_cltv / metadata; get_payment_preimage_decrypt_metadata must return the preimage and plaintext metadata for exactly the issued (hash, secret, metadata) and reject all 256 single-bit flips of the secret, generated multi-byte masks, tampered / truncated / extended / missing metadata, secrets and hashes of other registrations and for_hash secrets. Every case is non-trivial",
+			quick_cases: 60_000,
+			thorough_cases: 2_000_000,
+			max_shrink: 200,
+		},
+		api_strat,
+		api_oracle,
+	);
+	c.finish();
+}
